@@ -99,6 +99,37 @@ Proof. exact catalogue_matches_specs. Qed.
 Print Assumptions C09_catalogue_matches_specs.
 Eval vm_compute in Gen.Specs.spec_count.
 
+(** ** The catalogue entry of every spec IS the wrapper generated for it.
+    Equal Descriptions do not identify the registered object: a hand-written
+    init() may overwrite the generated registration (Go runs the init functions
+    of a package in file-name order) with a type that embeds the wrapper, keeps
+    its Description() and replaces Run.  So the running binary also reports, for
+    every key, the dynamic type of what the registered factory returns
+    (reflect.TypeOf), of a second call, whether the two objects are distinct,
+    and the source files (runtime.FuncForPC) of the registered function and of
+    every method of sim.TimeSteppingModel the object dispatches to; the
+    translator reports where ow-specgen puts each wrapper ([Gen.Specs.wrappers]).
+    For every spec: the dynamic type is exactly the pointer to the struct type
+    named like the spec in the package of the spec's directory, both calls give
+    that type and distinct objects, the registered function is declared in
+    generated_<name>.go, and no interface method is missing or promoted from an
+    embedded type; and the catalogue has no entry without a spec. *)
+Theorem C09_catalogue_entries_are_generated_wrappers :
+  map sp_name Gen.Specs.all = map fst Gen.Specs.wrappers
+  /\ NoDup (map fst Gen.CatalogDump.catalog_identity)
+  /\ (forall s, In s Gen.Specs.all ->
+        exists w e, In (sp_name s, w) Gen.Specs.wrappers /\ wi_name w = sp_name s
+          /\ lookup_gen (sp_name s) Gen.CatalogDump.catalog_identity = Some e
+          /\ ei_type e = wi_type w /\ ei_ptr_to_struct e = true
+          /\ ei_pkg e = wi_pkg w /\ ei_name e = sp_name s
+          /\ ei_second_type e = ei_type e /\ ei_fresh e = true
+          /\ ei_factory_file e = wi_file w
+          /\ ei_methods e <> []
+          /\ (forall m f, In (m, f) (ei_methods e) -> f <> EmptyString /\ f <> autogenerated))
+  /\ (forall k e, In (k, e) Gen.CatalogDump.catalog_identity -> exists s, In s Gen.Specs.all /\ sp_name s = k).
+Proof. exact catalogue_entries_are_generated_wrappers. Qed.
+Print Assumptions C09_catalogue_entries_are_generated_wrappers.
+
 (** The translator's own tokenisation (Go regexp package on the same expression,
     strings.Split, exact decimals) agrees with the Coq matcher on every parameter
     of every spec regenerated today. *)
@@ -123,6 +154,13 @@ Theorem C09_synthetic_corpus_matches :
   /\ (forall k d', In (k, d') Gen.SynthCatalog.catalog -> exists s, In s Gen.SynthSpecs.all /\ sp_name s = k).
 Proof. exact synthetic_corpus_matches. Qed.
 Print Assumptions C09_synthetic_corpus_matches.
+
+(** the identity check passes on wrappers freshly generated in the scratch copy (another source root),
+    and rejects an entry whose type embeds the wrapper *)
+Theorem C09_synthetic_entries_are_generated_wrappers :
+  identities_agree Gen.SynthSpecs.all Gen.SynthSpecs.wrappers Gen.SynthCatalog.catalog_identity.
+Proof. exact synthetic_entries_are_generated_wrappers. Qed.
+Print Assumptions C09_synthetic_entries_are_generated_wrappers.
 
 Theorem C09_synthetic_tokens_agree :
   forall s, In s Gen.SynthSpecs.all -> forall p, In p (sp_params s) -> tokens_agree p = true.
